@@ -65,7 +65,7 @@ class C10(Harness):
         if 'crash' in nat: return [('crash', nat['crash'])]
         v = []
         feats = sorted({f for en in w['spec'] if isinstance(en, list) for r in en for f in r['features']})
-        style = ['spaces', 'compact', 'tabs', 'newlines', 'bare-newline'][w['style']]
+        style = ['spaces', 'compact', 'tabs', 'newlines', 'bare-newline', 'alternating'][w['style']]
         tag = ','.join(feats) or 'plain'
         want = [en for en in w['spec'] if isinstance(en, list)]
         rt = nat['relaxed_true']
